@@ -80,23 +80,65 @@ def clean_tree(
 
 
 def _filter_out_nested_controldirs(deletables):
+    """Drop everything whose deletion would damage a nested control directory.
+
+    That is: a directory that is the root of a nested branch/tree, a directory
+    that contains one anywhere below it (rmtree would take it along), and any
+    path that lies inside a nested branch/tree (trees that do not know the
+    control directory format of a nested branch report its control files and
+    working files one by one, and report a foreign control directory in a
+    versioned directory as an ordinary unknown directory).
+    """
     result = []
-    for path, subp in deletables:
-        # bzr won't recurse into unknowns/ignored directories by default
-        # so we don't pay a penalty for checking subdirs of path for nested
-        # control dir.
-        # That said we won't detect the branch in the subdir of non-branch
-        # directory and therefore delete it. (worth to FIXME?)
-        if isdir(path):
-            try:
-                controldir.ControlDir.open(path)
-            except errors.NotBranchError:
-                result.append((path, subp))
-            else:
-                # TODO may be we need to notify user about skipped directories?
-                pass
+    probed = {}
+    control_names = {}
+
+    def is_controldir(path):
+        try:
+            return probed[path]
+        except KeyError:
+            pass
+        try:
+            controldir.ControlDir.open(path)
+        except errors.NotBranchError:
+            found = False
         else:
-            result.append((path, subp))
+            found = True
+        probed[path] = found
+        return found
+
+    def is_control_name(name):
+        try:
+            return control_names[name]
+        except KeyError:
+            found = control_names[name] = controldir.is_control_filename(name)
+            return found
+
+    def contains_controldir(path):
+        # only directories that hold a control file name are probed
+        for dirpath, dirnames, filenames in os.walk(path):
+            if any(
+                is_control_name(name) for name in dirnames + filenames
+            ) and is_controldir(dirpath):
+                return True
+        return False
+
+    def inside_controldir(path, subp):
+        # the ancestors of subp inside the tree (not the tree root itself)
+        root = path[: len(path) - len(subp)]
+        parts = subp.split("/")
+        for i in range(1, len(parts)):
+            if is_controldir(root + "/".join(parts[:i])):
+                return True
+        return False
+
+    for path, subp in deletables:
+        if inside_controldir(path, subp):
+            continue
+        # TODO may be we need to notify user about skipped directories?
+        if isdir(path) and (is_controldir(path) or contains_controldir(path)):
+            continue
+        result.append((path, subp))
     return result
 
 
